@@ -300,6 +300,34 @@ PLANS['C10'] = dict(
 )
 
 
+PLANS['C12'] = dict(
+    level='fault_enumeration',
+    rule='fault enumeration: round r applies fault plan r mod 154 = every placement of at most two injected early kernel returns (EINTR / EAGAIN / premature ETIMEDOUT) among the '
+         'first six kernel waits of the waiter, under a seeded schedule (Mode B, modelled futex) or on the real kernel with additional random injection (Mode A); '
+         'the binary (mutex+condvar) flavour runs the post/ack handshake rounds on the real primitives. '
+         'distinct_nontrivial = distinct (plan, posts, schedule/history) executions in which a wait slept.',
+    groups=[
+        G('semaphore', 'c-plain', 'B', 8, 154 * 12, thorough=154 * 400),
+        G('semaphore', 'c-plain', 'A', 4, 154 * 6, thorough=154 * 200),
+        G('semaphore', 'c-binsem-plain', 'A', 2, 600, thorough=20000, params=dict(binsem=1)),
+        G('semaphore', 'cpp-plain', 'B', 2, 154 * 4, thorough=154 * 100),
+    ],
+    assumptions=['the Mode B futex is a model: compare-and-block atomic, wake <= n waiters on the address, absolute timeout on the virtual clock, EINVAL for negative tv_sec'],
+)
+
+
+PLANS['C14'] = dict(
+    rule='Mode B: a scheduling adversary lets try-lock-only bargers re-take the mutex whenever the victim has been woken and before it runs; Mode A: the victim sleeps 300 us after every wake-up. '
+         'distinct = hash of (mix, bargers, schedule / sleeps per acquisition); non-trivial = the victim slept at least once inside a lock call.',
+    groups=[
+        G('starve', 'c-plain', 'B', 8, 150, thorough=4000, strategy='rw'),
+        G('starve', 'c-plain', 'A', 8, 12, thorough=300),
+        G('starve', 'cpp-plain', 'B', 2, 100, thorough=2000, strategy='rw'),
+    ],
+    floor=lambda c: None if c['counters'].get('acquisitions_that_needed_31_or_more_sleeps', 0) > 0 else 'the adversary never drove a victim to the long-wait threshold',
+)
+
+
 def expand(prop, tier, scale=1.0):
     spec = PLANS[prop]
     out = []
